@@ -132,3 +132,56 @@ package comp
 //@   loop 0: invariant forall j :: 0 <= j && j < len(old(b.queue)) ==> b.queue[j] == old(b.queue[j])
 //@   loop 0: invariant forall j :: 0 <= j && j < i ==> b.queue[len(old(b.queue)) + j] == old(b.buffer[j].t) && old(b.buffer[j].availableFromCycle) <= currentCycle
 //@   loop 0: invariant forall j :: 0 <= j && j < len(old(b.buffer)) ==> b.buffer[j] == old(b.buffer[j])
+
+// ---------------------------------------------------------------- LRUCache (C13, C05)
+// View: the MRU-first sequence c.lines of (Boundary, Data) lines.
+
+//@ spec func covers(l Line, a int32) bool = a >= int32(l.Boundary[0]) && a < int32(l.Boundary[1])
+//@ spec func wfLine(c *LRUCache, l Line) bool = 0 <= int32(l.Boundary[0]) && int(l.Boundary[1]) - int(l.Boundary[0]) == c.lineLength && len(l.Data) == c.lineLength
+//@ spec func wfCache(c *LRUCache) bool = c.lineLength > 0 && c.lineLength <= 1048576 && c.numberOfLines >= 0 && (forall j :: 0 <= j && j < len(c.lines) ==> wfLine(c, c.lines[j]))
+
+//@ func (Line).get
+//@   requires 0 <= int32(l.Boundary[0]) && int(l.Boundary[1]) - int(l.Boundary[0]) == len(l.Data)
+//@   ensures result1 == covers(l, addr)
+//@   ensures result1 ==> result == l.Data[addr - int32(l.Boundary[0])]
+//@   ensures !result1 ==> result == 0
+//@   assigns nothing
+
+//@ func (Line).set
+//@   requires 0 <= int32(l.Boundary[0]) && int(l.Boundary[1]) - int(l.Boundary[0]) == len(l.Data) && covers(l, addr)
+//@   ensures l.Data[addr - int32(l.Boundary[0])] == value
+//@   ensures forall k :: 0 <= k && k < len(l.Data) && k != addr - int32(l.Boundary[0]) ==> l.Data[k] == old(l.Data[k])
+//@   assigns l.Data[*]
+
+//@ func NewLRUCache
+//@   requires lineLength > 0 && cacheLength >= 0 && cacheLength % lineLength == 0
+//@   ensures result != nil && fresh(result)
+//@   ensures result.numberOfLines == cacheLength / lineLength && result.lineLength == lineLength && result.cacheLength == cacheLength
+//@   ensures len(result.lines) == 0
+//@   assigns nothing
+
+//@ func (*LRUCache).ExistingLines
+//@   requires c.numberOfLines >= 0
+//@   ensures len(result) == min(len(c.lines), c.numberOfLines)
+//@   ensures forall j :: 0 <= j && j < len(result) ==> result[j] == c.lines[j]
+//@   assigns nothing
+
+//@ func (*LRUCache).Lines
+//@   ensures result == c.lines
+//@   assigns nothing
+
+// Get: a byte is present exactly when a resident line covers it; the first
+// covering line moves to the front, every other line keeps its relative
+// position; line contents are untouched.
+//@ func (*LRUCache).Get
+//@   requires wfCache(c)
+//@   ensures result1 == (exists i :: 0 <= i && i < len(old(c.lines)) && covers(old(c.lines[i]), addr))
+//@   ensures !result1 ==> c.lines == old(c.lines) && result == 0
+//@   ensures result1 ==> covers(c.lines[0], addr) && result == c.lines[0].Data[addr - int32(c.lines[0].Boundary[0])]
+//@   ensures forall i :: result1 && 0 <= i && i < len(old(c.lines)) && covers(old(c.lines[i]), addr) && (forall j :: 0 <= j && j < i ==> !covers(old(c.lines[j]), addr)) ==> c.lines[0] == old(c.lines[i])
+//@   ensures forall i, k :: result1 && 0 <= i && i < len(old(c.lines)) && covers(old(c.lines[i]), addr) && (forall j :: 0 <= j && j < i ==> !covers(old(c.lines[j]), addr)) && 0 < k && k <= i ==> c.lines[k] == old(c.lines[k-1])
+//@   ensures forall i, k :: result1 && 0 <= i && i < len(old(c.lines)) && covers(old(c.lines[i]), addr) && (forall j :: 0 <= j && j < i ==> !covers(old(c.lines[j]), addr)) && i < k && k < len(c.lines) ==> c.lines[k] == old(c.lines[k])
+//@   ensures len(c.lines) == len(old(c.lines))
+//@   assigns c.lines
+//@   loop 0: invariant c.lines == old(c.lines)
+//@   loop 0: invariant forall j :: 0 <= j && j < _idx0 ==> !covers(c.lines[j], addr)
